@@ -5,6 +5,7 @@ nondeterministic kernel.  Every theorem quantifies over ALL event sequences and 
 -/
 import JanetModel.Stream.Lemmas
 import JanetModel.Stream.Slots
+import JanetModel.Stream.Liveness
 import JanetModel.Proc.Status
 import JanetModel.Proc.SpawnLemmas
 
@@ -183,6 +184,52 @@ example : (runRead true false 4096 0 (rInit 6 [1, 2, 3, 4, 5]) [.ready [.bytes 2
 example : (runRead true false 4096 0 (rInit 6 [1, 2, 3, 4, 5]) [.ready [.bytes 2, .eagain], .ready [.bytes 3, .bytes 0]]).st.got = [1, 2, 3, 4, 5] := by decide
 example : (runRead true false 4096 0 (rInit 4 [1, 2, 3, 4, 5]) [.ready [.bytes 2, .eagain], .ready [.bytes 3]]).res = .buf .full := by decide
 example : (runRead false false 4096 0 (rInit 4 ([] : List Nat)) [.ready [.eagain], .ready [.bytes 0]]).res = .nil false := by decide
+
+/-! ## liveness under an explicit fairness hypothesis on the kernel -/
+
+/-- ★ LIVENESS (bounded form).  A write of `len` bytes has ended — completed or raised — once the schedule has
+    delivered `max 1 len` productive events, a read of `n` bytes once it has delivered `max 1 n`: every productive
+    event (a readiness report after which the kernel, possibly after EINTR retries, transfers at least one byte or
+    fails; an error, hang-up or close event) either ends the operation or strictly advances it.  Unproductive events
+    (spurious wake-ups answered with EAGAIN) in between are harmless, in any number. -/
+theorem op_ends_within_fair_events :
+    (∀ (len : Nat) (dgram : Bool) (evs : List WEv), (∀ ev ∈ evs, ev.complete = true) →
+        (evs.filter WEv.productive).length ≥ max 1 len → (runWrite len dgram 0 evs).res.ended = true) ∧
+    (∀ {α : Type} (chunk recvfrom : Bool) (limC base n : Nat) (inc : List α) (evs : List REv), (∀ ev ∈ evs, ev.closed = true) →
+        (evs.filter REv.productive).length ≥ max 1 n → (runRead chunk recvfrom limC base (rInit n inc) evs).res.ended = true) :=
+  ⟨fun len dgram evs hc hp => write_ends_within len dgram evs 0 (Nat.zero_le _) hc (by simpa using hp),
+   fun chunk recvfrom limC base n inc evs hc hp => read_ends_within chunk recvfrom limC base evs (rInit n inc) hc (by simpa [rInit] using hp)⟩
+
+/-- ★ LIVENESS (fairness form), replacing the safety reformulation of `every_op_completes_or_errors` for the operation
+    itself: against an INFINITE schedule of events in which productive events keep coming (∀ k ∃ j ≥ k) and every call
+    is answered, there is a finite prefix after which the write / read has ended.  Together with
+    `every_op_completes_or_errors` (the waiting fiber is the one registered in its slot, so these events are delivered
+    to it) no operation is left suspended forever.  What remains an assumption is exactly the fairness hypothesis:
+    that the kernel reports readiness again after a would-block. -/
+theorem every_op_completes_under_fairness :
+    (∀ (len : Nat) (dgram : Bool) (evs : Nat → WEv), (∀ i, (evs i).complete = true) →
+        (∀ k, ∃ j, k ≤ j ∧ (evs j).productive = true) → ∃ m, (runWrite len dgram 0 (prefixOf evs m)).res.ended = true) ∧
+    (∀ {α : Type} (chunk recvfrom : Bool) (limC base n : Nat) (inc : List α) (evs : Nat → REv), (∀ i, (evs i).closed = true) →
+        (∀ k, ∃ j, k ≤ j ∧ (evs j).productive = true) →
+        ∃ m, (runRead chunk recvfrom limC base (rInit n inc) (prefixOf evs m)).res.ended = true) := by
+  refine ⟨?_, ?_⟩
+  · intro len dgram evs hc fair
+    obtain ⟨m, hm⟩ := fair_count evs WEv.productive fair (max 1 len)
+    refine ⟨m, op_ends_within_fair_events.1 len dgram _ ?_ hm⟩
+    intro ev hev
+    obtain ⟨i, hi⟩ := mem_prefix evs m ev hev
+    rw [hi]; exact hc i
+  · intro α chunk recvfrom limC base n inc evs hc fair
+    obtain ⟨m, hm⟩ := fair_count evs REv.productive fair (max 1 n)
+    refine ⟨m, op_ends_within_fair_events.2 chunk recvfrom limC base n inc _ ?_ hm⟩
+    intro ev hev
+    obtain ⟨i, hi⟩ := mem_prefix evs m ev hev
+    rw [hi]; exact hc i
+
+-- non-vacuity: a fair schedule (EAGAIN, then one byte per event, forever) and the prefix after which a 3-byte write is done
+example : (runWrite 3 false 0 (prefixOf (fun i => if i % 2 = 0 then WEv.ready [.eagain] else WEv.ready [.bytes 1]) 6)).res = .done := by decide
+example : (runWrite 3 false 0 (prefixOf (fun i => if i % 2 = 0 then WEv.ready [.eagain] else WEv.ready [.bytes 1]) 5)).res = .pending := by decide
+example : (runRead true false 4096 0 (rInit 2 [7, 8, 9]) (prefixOf (fun _ => REv.ready [.bytes 1, .eagain]) 2)).res = .buf .full := by decide
 
 /-! ## subprocess exit status (`proc_get_status`, src/core/os.c) -/
 section ExitStatus
